@@ -182,6 +182,20 @@ def run(ctx, rep, tier="quick"):
                   [("self._allow_duplicates", lambda a: a[0] == "truth" and a[1] == "self._allow_duplicates" and a[2] is True),
                    ("trial_id in self._config_for_trial_id", lambda a: a[0] == "in" and a[2] == "self._config_for_trial_id" and a[3] is True)],
                   "with allow_duplicates=True the failed configuration is not black-listed and can be suggested again")
+    # DEHB: a slot gets a trial id only together with the metric of the winner that is returned to the bracket; a failed job's
+    # slot therefore stays (None, NaN) and is never taken as a parent for promotion
+    dc = ctx.P.cls("DifferentialEvolutionHyperbandScheduler")
+    wr = []
+    for m_ in dc.methods.values():
+        for x in walk_shallow(m_.node):
+            if isinstance(x, ast.Assign) and any(isinstance(t, ast.Attribute) and t.attr == "trial_id" and isinstance(t.value, ast.Name)
+                                                 and t.value.id != "self" for t in x.targets):
+                wr.append((m_, x))
+    okw = bool(wr) and all(m_.name == "_return_slot_result_to_bracket" for m_, x in wr)
+    rep.put(okw, "S3", "who_may_write", "DEHB: the trial id of a slot is written only when the winner's result is returned to the bracket", dc,
+            next((x for m_, x in wr if m_.name != "_return_slot_result_to_bracket"), None), f"{len(wr)} write(s)",
+            "a slot carries a trial id before it has a result: when that job fails the bracket records (trial id, NaN) instead of (None, NaN), the failed "
+            "trial can be picked as a promotion parent and suggest() fails on its missing metric (or resumes a failed trial)")
     mf = ctx.P.method("ModelStateTransformer", "mark_trial_failed")
     nodes = [n for n, c in call_nodes(ctx, mf, lambda c: fn_name(c) == "append")]
     require_guard(ctx, rep, "S4", mf, "ModelStateTransformer.mark_trial_failed: the trial is appended to failed_trials | it is not listed yet", nodes,
